@@ -54,6 +54,80 @@ def sources(rng, kinds):
     raise ValueError(k)
 
 
+ASYNC_HEADS = ("future", "futureres", "stream", "streamres")
+
+
+def async_script(rng, head, maxlen=5, p_pending=0.3, p_err=0.25, p_hang=0.05):
+    """A script for a scripted future / stream (harness/src/ascript.rs): steps
+    (ready v) (err e) (pending) (hang); values are 1,2,3,… in order."""
+    res = head.endswith("res")
+    steps = []
+
+    def pend():
+        while rng.random() < p_pending:
+            steps.append(["pending"])
+
+    if head.startswith("future"):
+        pend()
+        r = rng.random()
+        if r < p_hang:
+            steps.append(["hang"])
+        elif r < 2 * p_hang:
+            pass                                   # never resolves
+        elif res and rng.random() < p_err * 1.5:
+            steps.append(["err", str(rng.randint(1, 9))])
+        else:
+            steps.append(["ready", str(rng.randint(1, 9))])
+        return steps
+    n = rng.randint(0, maxlen)
+    err_at = rng.randrange(0, n + 1) if res and rng.random() < p_err * 2 else None
+    for i in range(n):
+        pend()
+        if err_at == i:
+            steps.append(["err", str(rng.randint(1, 9))])
+        elif rng.random() < p_hang:
+            steps.append(["hang"])
+        else:
+            steps.append(["ready", str(i + 1)])
+    pend()
+    return steps
+
+
+def async_source(rng, heads=ASYNC_HEADS, **kw):
+    h = rng.choice(list(heads))
+    return [h] + async_script(rng, h, **kw)
+
+
+def async_expected(src):
+    """What the property promises for a scripted async source, read off the script alone:
+    (notifications in order, complete?) — `complete` False when the script hangs before its end
+    (then the list is what may be delivered before the hang)."""
+    head, steps = src[0], src[1:]
+    res = head.endswith("res")
+    out = []
+    for st in steps:
+        k = st[0]
+        if k == "pending":
+            continue
+        if k == "hang":
+            return out, False
+        if k == "again":
+            return out, False                      # unbounded: no end
+        if k == "ready":
+            out.append("N" + sx.show(st[1]))
+            if head.startswith("future"):
+                return out + ["C"], True
+        elif k == "err":
+            if res:
+                return out + ["E" + str(st[1])], True
+            out.append("N" + str(st[1]))
+            if head.startswith("future"):
+                return out + ["C"], True
+    if head.startswith("future"):
+        return out, False                          # never resolved
+    return out + ["C"], True
+
+
 def events(rng, n, hot=True, mode="mixed", unsub_p=0.0, term_p=0.15):
     """mode: 'fifo' (every step followed by run), 'mixed' (fire/poll/run interleaved)."""
     evs = [["sub"]]
@@ -118,6 +192,25 @@ def parse_head(body):
     return body[:m.start()] if m else body
 
 
+def script_shrink(case):
+    """drop one step of the script of the async source at the bottom of the chain."""
+    from .pipegen import replace_sub
+    pipe = case.field("pipe")[0]
+    node, path = pipe, []
+    while isinstance(node, list) and node and node[0] not in ASYNC_HEADS and isinstance(node[-1], list):
+        path = path + [len(node) - 1]
+        node = node[-1]
+    if not (isinstance(node, list) and node and node[0] in ASYNC_HEADS):
+        return []
+    cands = []
+    for i in range(len(node) - 1, 0, -1):
+        c = case.copy()
+        new = node[:i] + node[i + 1:]
+        c.set_field("pipe", [replace_sub(pipe, path, new) if path else new])
+        cands.append(c)
+    return cands
+
+
 def time_shrink(case):
     """drop events; drop stages (hoist the inner pipeline)."""
     from .pipegen import pipe_positions, replace_sub
@@ -132,7 +225,7 @@ def time_shrink(case):
     # chain positions: every node whose last element is a list
     node, path = pipe, []
     while isinstance(node, list) and node and isinstance(node[-1], list) and node[0] not in (
-            "iter", "create", "startwith"):
+            "iter", "create", "startwith") + ASYNC_HEADS:
         c = case.copy()
         c.set_field("pipe", [replace_sub(pipe, path, node[-1])])
         cands.append(c)
